@@ -4,21 +4,23 @@ seeds are explored)."""
 
 
 def _p(engine, q_runs, q_faults, t_runs, t_faults, per_task=180):
+    # quick: a FIXED number of seeds (sized for ~30-40 s on 16 idle cores) so that the work reported in the evidence
+    # file does not depend on machine load; the wall limit is only a safety net.  thorough: wall-limited soak.
     return (engine, {
-        "quick": {"runs": q_runs, "fault_runs": q_faults, "wall_s": 50, "per_task_s": per_task},
+        "quick": {"runs": q_runs, "fault_runs": q_faults, "wall_s": 900, "per_task_s": per_task},
         "thorough": {"runs": t_runs, "fault_runs": t_faults, "wall_s": 1000, "per_task_s": 2 * per_task},
     })
 
 
 PLANS = {
-    "C03": _p("asm", 6000, 0, 400000, 0),
-    "C04": _p("bc", 5000, 1500, 300000, 100000),
-    "C05": _p("dyn", 5000, 1500, 300000, 100000),
-    "C11": _p("law", 8000, 0, 600000, 0),
-    "C14": _p("fresh", 3000, 800, 200000, 60000),
-    "C15": _p("hist", 5000, 2500, 300000, 150000),
-    "C17": _p("pf", 3500, 800, 200000, 50000),
-    "C18": _p("hyper", 400, 100, 40000, 10000, per_task=300),
-    "C19": _p("mat", 2500, 500, 200000, 40000),
-    "C20": _p("mpi", 2500, 800, 150000, 50000, per_task=300),
+    "C03": _p("asm", 5000, 0, 400000, 0),
+    "C04": _p("bc", 3600, 1200, 300000, 100000),
+    "C05": _p("dyn", 3000, 900, 300000, 100000),
+    "C11": _p("law", 6000, 0, 600000, 0),
+    "C14": _p("fresh", 1400, 400, 200000, 60000),
+    "C15": _p("hist", 2800, 1400, 300000, 150000),
+    "C17": _p("pf", 2800, 700, 200000, 50000),
+    "C18": _p("hyper", 220, 60, 40000, 10000, per_task=300),
+    "C19": _p("mat", 1800, 400, 200000, 40000),
+    "C20": _p("mpi", 900, 300, 150000, 50000, per_task=300),
 }
